@@ -1762,7 +1762,7 @@ func sgGenWrapped(in *sgInput) {
 				at := r.Intn(len(inner) + 1)
 				inner = append(inner[:at], append([]sgInner{{}}, inner[at:]...)...)
 			}
-			wr := &sgWrap{Route: routes[pick(52, 12, 10, 10, 8)], Signer: i, Inner: inner}
+			wr := &sgWrap{Route: routes[pick(60, 12, 10, 10, 8)], Signer: i, Inner: inner}
 			wr.Depth = []int{0, 1, 2, 3}[pick(18, 47, 20, 15)]
 			wr.Before = []int{0, 1, 2, 3}[pick(40, 35, 15, 10)]
 			wr.After = pick(75, 25)
